@@ -3,27 +3,168 @@ import re
 
 from kcheck import k_check
 
+RULE = "one evaluation = one Kani harness (one real function / one step() arm from a stated family of pre-states) decided by CBMC over all symbolic inputs; non-trivial = verdict SUCCESS with every required reachability witness (kani::cover) satisfied"
+
 K = {
     "C15": {
         "prefix": r"c15_",
-        "thorough_only": r"_(ott|tto|oto|to|ot)$",
+        "thorough_only": r"_(ott|tto|oto|too|to|ot)$",
         "functions": ["vm::VmGreenThread::step (arms AddInt SubtractInt MulInt DivideInt Modulo PowerInt and *Imm, BitXor, "
                       "WrappingAdd, WrappingMul, the integer comparisons)", "vm::VmGreenThread::load_offset_or_top",
-                      "vm::VmGreenThread::store_offset_or_top", "assembly::Reg::encode"],
+                      "vm::VmGreenThread::store_offset_or_top", "assembly::Reg::encode", "vm::checked_pow_int"],
         "bounds": "one real step() per harness; operands: all 2^64 x 2^64 values (symbolic payloads); register modes concrete per "
-                  "harness (Top/Offset combinations the peephole optimizer can emit), offsets symbolic within a 5-slot frame; "
-                  "immediates: symbolic 3-entry constant table with symbolic index; / % ^ decided through contract stubs of "
-                  "i64::checked_div / checked_rem_euclid / wrapping_rem_euclid / checked_pow plus reduced-range direct harnesses "
-                  "(|a| < 4096 or within 2 of MIN/MAX, |b| <= 64). Outside: negative exponents; frames larger than 5 slots; "
-                  "unary minus and compound assignment forms (engine S, C02/C05).",
+                  "harness (the Top/Offset combinations the peephole optimizer can emit) with fixed in-frame offsets; immediates: symbolic "
+                  "3-entry constant table; / % ^ decided through contract stubs of i64::checked_div / checked_rem_euclid / "
+                  "wrapping_rem_euclid / checked_pow plus reduced-range direct harnesses (|a| < 4096 or within 2 of MIN/MAX, |b| <= 64). "
+                  "Outside: negative exponents; unary minus and compound assignment forms (engine S, C02/C05).",
         "assumptions": ["Rust's documented contract of i64::checked_div, checked_rem_euclid, wrapping_rem_euclid, checked_pow "
                         "(the contract stubs return None exactly when documented and an arbitrary value otherwise)",
                         "CBMC's bit-precise model of + - * on i64/i128"],
-        "rule": "one evaluation = one Kani harness (one instruction arm in one operand-mode combination) decided by CBMC over all "
-                "operand values; non-trivial = verdict SUCCESS with every reachability witness (kani::cover) satisfied and a "
-                "non-empty residual formula",
+    },
+    "C16": {
+        "prefix": r"c16_",
+        "thorough_only": r"c16_(int_from_float|float_from_int|div_tto|divimm_to|sub_too|lt_too|ge_tto|subimm_oo|gtimm|geimm|leimm)",
+        "jobs": 10,
+        "functions": ["vm::VmGreenThread::step (AddFloat SubFloat MulFloat DivFloat and *Imm, the ten float comparisons, EqualFloat(Imm), "
+                      "IntFromFloat, FloatFromInt)"],
+        "bounds": "operands: all 2^64 bit patterns (every NaN payload, both zeros, subnormals, infinities); + - * against the Rust operator "
+                  "(bit-equal), comparisons against a reference total order written on the sign-magnitude encoding; division: dividend fully "
+                  "symbolic, divisor from a 10-value set (both zeros, +-1, -2, 3, MAX, MIN_POSITIVE_SUBNORMAL, inf, NaN) because two symbolic "
+                  "64-bit float dividers do not finish under CBMC (measured > 400 s). Outside: ^ and the math intrinsics (no CBMC model), "
+                  "decimal<->binary conversion of literals (std, trusted); int<->float conversion arms are thorough-only (slow).",
+        "assumptions": ["CBMC's IEEE-754 model of + - * / on binary64", "NaN-producing operations are IEEE-conformant (CBMC's NaN checks are ignored)"],
+    },
+    "C17": {
+        "prefix": r"c17_",
+        "thorough_only": r"c17_(le_|ge_|gt_entry|gt_resume1|gt_resume2|lt_resume3|eq_resume3|concat_i(20|30|01|02|11|32|13)|.*_odest|lt_entry_ooo)",
+        "jobs": 8, "quick_timeout": 600, "thorough_timeout": 1500,
+        "functions": ["vm::VmGreenThread::step (EqualString LessThanString LessThanOrEqualString GreaterThanString GreaterThanOrEqualString "
+                      "ConcatStrings)", "vm::StringObject::new, Value::view_string"],
+        "bounds": "ONE step from every valid state: entry (operands on the stack, index 0) and in-flight states with progress index i in 1..3 "
+                  "(concatenation: index pairs (i1,i2)) under the loop invariant; strings: symbolic length 0..3, symbolic ASCII bytes. The step "
+                  "either finishes with the reference answer on the whole strings or advances by one byte and re-establishes the invariant, so "
+                  "induction covers every slicing of the operation. Outside: strings longer than 3 bytes (the step is length-independent but only "
+                  "this bound is claimed), non-ASCII bytes (comparison is byte-wise; multi-byte text is covered at the S level only).",
+        "assumptions": ["induction over steps is an argument on top of the solver-checked single steps"],
+    },
+    "C01": {
+        "prefix": r"c01_",
+        "thorough_only": r"c01_(call_returnvoid_3|call_return_2|get_field_1_t|set_field_1_t|construct_struct_0|not_oo|reg_store_all_offsets)",
+        "jobs": 12,
+        "functions": ["vm::VmGreenThread::step (stack, constant, jump, call/return, struct/variant/closure arms, Not, EqualBool, string intrinsics)",
+                      "vm::VmGreenThread::load_offset_or_top / store_offset_or_top", "assembly::Reg::encode", "vm::CallData"],
+        "bounds": "one real step() (or a 2-step call/return pair) per harness from a 5-slot frame with symbolic payloads and the operand tags the "
+                  "compiler guarantees; a tag mismatch, underflow or Rust panic is a failed check. Register decoding: every 15-bit offset. "
+                  "Program-level faults (operand-stack discipline across instructions) are covered by the S part of ./check C02. "
+                  "Outside: tasks at program level, FFI.",
+        "assumptions": [],
+    },
+    "C05": {
+        "prefix": r"c05_",
+        "thorough_only": r"c05_tv_(load_div_second|load_lt_second|load_load_mod|pushint_ge_imm|pushint_eq_imm|false_not|true_jumpiffalse|pushnil2_pop|load_arraylen_store|load_load_getindex)",
+        "jobs": 10, "quick_timeout": 600,
+        "functions": ["optimize_bytecode::optimize (all peephole rules exercised by the windows)", "assembly::Reg::encode",
+                      "vm::VmGreenThread::step on the original and the rewritten window"],
+        "bounds": "windows of 2-4 assembly lines (one per rewrite rule family and instruction kind listed in the evidence), symbolic integer "
+                  "constants and frame contents; both windows executed by the real step() from the same symbolic 5-slot frame. Integer folds: "
+                  "all 2^128 constant pairs for + - *, reduced ranges for / and ^. Outside: float immediates/folds (string parsing; covered by "
+                  "./check C02 literal-vs-variable templates), the composition of rewrites across a whole function (sampled by C02's with/without "
+                  "optimizer comparison), label handling.",
+        "assumptions": ["the harness lowering of assembly lines to VM instructions (vm_peephole.rs::lower) mirrors assembly::instr_to_vminstr "
+                        "(which needs hash maps and is out of CBMC's reach)"],
+    },
+    "C06": {
+        "prefix": r"c06_",
+        "jobs": 8, "quick_timeout": 900, "thorough_timeout": 1800,
+        "functions": ["vm::VmGreenThread::{start_mark_phase, mark, process_gray, write_barrier}", "object constructors (allocation colour)",
+                      "step() arms SetIndex SetField ArrayPush (barrier call sites)"],
+        "bounds": "single collector / mutator steps on two- and three-object heaps with symbolic or enumerated colours (white/gray/black): "
+                  "write barrier (G1), allocation colour (G2), one process_gray iteration per object kind (G3), the Marking->Sweeping switch with "
+                  "a white root on the stack or in a parked string operand (G4), root scan (G6). The composition 'strong tricolour invariant + "
+                  "root rescan at drain time => no reachable object is swept' is an argument, not a solver result. Outside: whole cycles, "
+                  "channels as GC roots, FFI threads.",
+        "assumptions": ["composition of the one-step obligations into whole collection cycles is argued in kani/vm_gc.rs"],
+    },
+    "C07": {
+        "prefix": r"c07_|c26_push_len",
+        "jobs": 8, "quick_timeout": 900, "thorough_timeout": 1800,
+        "functions": ["vm::VmGreenThread::{sweep, maybe_gc}", "Drop for VmGreenThread", "Drop for VmSharedReadonly", "ArrayPush heap accounting"],
+        "bounds": "one sweep iteration over a two-object heap with symbolic mark bits (freed iff unmarked, accounting, phase end), the pacing "
+                  "trigger for symbolic heap sizes < 2^40, drop of a thread / of the shared block frees the allocation (solver-side liveness "
+                  "predicate). Outside: boundedness of whole programs (composition), channels.",
+        "assumptions": ["liveness of an allocation is decided by CBMC's memory model; such a verdict cannot be replayed natively (reported as exit 2)"],
+    },
+    "C08": {
+        "prefix": r"c08_", "jobs": 8, "quick_timeout": 900,
+        "functions": ["vm::VmGreenThread::step (SpawnTask)", "vm::Value::deep_copy (all value kinds)", "ChannelObject::copy"],
+        "bounds": "one real SpawnTask step with one capture of each kind: scalar (symbolic), string <= 2 symbolic bytes, array of 0/2 symbolic "
+                  "ints, array of strings, struct{int, array}, variant(symbolic tag){closure[code, int]}, channel; nesting <= 2. The scheduler "
+                  "queue (mpsc) is a ghost slot. Outside: deeper nesting, cyclic structures (not constructible in Abra).",
+        "assumptions": [],
+    },
+    "C09": {
+        "prefix": r"c09_", "jobs": 8, "quick_timeout": 900,
+        "functions": ["vm::VmGreenThread::step (ChannelWrite, ChannelRead)", "ChannelObject::{read_value, write_value, copy}", "Value::deep_copy"],
+        "bounds": "one-step harnesses on two real threads sharing one queue of <= 2 symbolic values: write appends, read takes the front and "
+                  "copies into the reader's heap, empty read rewinds pc only; plus the history write / writer dropped / read. Order and "
+                  "exactly-once then follow from VecDeque (std, trusted). Outside: OS threads, queues longer than 2.",
+        "assumptions": ["std::collections::VecDeque and Mutex behave as documented (single-threaded under Kani)"],
+    },
+    "C10": {
+        "prefix": r"c10_", "jobs": 4, "quick_timeout": 900,
+        "functions": ["vm::Runtime::{run_n_steps, run_threads_round_robin, finish_thread_turn, drain_new_threads, update_status_helper, try_get_main}",
+                      "vm::VmGreenThread::run_n_steps (thread layer, step and maybe_gc stubbed)"],
+        "bounds": "scheduler layer against a SCRIPTED thread step (VmGreenThread::run_n_steps stubbed): 2 threads (+1 spawned), scripts of 4 "
+                  "symbolic outcomes each {continue, done, error, pending host call, spawn}, budgets b1, b2 in 0..3: run(b1);run(b2) steps the "
+                  "same threads in the same order with the same status as run(b1+b2). Thread layer: run_n_steps(n) = n x (maybe_gc; step). "
+                  "Resumable instructions keep their progress in the thread (C17). The composition is an argument.",
+        "assumptions": ["mpsc::Receiver::try_recv / Sender::send are modelled by a one-slot ghost (Kani cannot compile the real ones)"],
+    },
+    "C11": {
+        "prefix": r"c11_", "jobs": 4, "quick_timeout": 900,
+        "functions": ["vm::Runtime::{run_n_steps, run_threads_round_robin, update_status_helper, top}", "step() arms Stop, HostFunc, Panic",
+                      "VmGreenThread::{status, can_run, clear_pending_host_func}"],
+        "bounds": "scheduler layer with scripted thread steps (as C10): 2 threads, scripts of 4 symbolic outcomes, budget 0..4; arm layer: "
+                  "HostFunc/Stop/Panic with symbolic arguments and return value.",
+        "assumptions": ["mpsc modelled by a one-slot ghost"],
+    },
+    "C31": {
+        "prefix": r"c31_", "jobs": 4,
+        "functions": ["parse::Parser::{parse_binop, parse_prefix_op, parse_postfix_op}", "BinaryOperator::precedence, PrefixOp::precedence, PostfixOp::precedence"],
+        "bounds": "operator tables against book/src/language_reference/operators.md for a symbolic token (17 token kinds); prefix-operator "
+                  "recognition for a symbolic following token. Outside: the Pratt loop itself (measured out of reach: every current_token() "
+                  "clones a Token owning a String) -- grouping beyond what the tables imply is not claimed.",
+        "assumptions": [],
+    },
+    "C32": {
+        "prefix": r"c32_", "jobs": 4, "quick_timeout": 600,
+        "functions": ["vm::VmGreenThread::{pc_to_error_location, make_stack_trace, make_error}", "translate_bytecode::Translator::create_source_location_tables"],
+        "bounds": "symbolic source tables of <= 3 strictly increasing entries, symbolic pc < 100000 and two symbolic call sites; table "
+                  "construction from <= 4 lines (one label) with symbolic (line, file, function) triples. Outside: the text of the traceback "
+                  "(format!), line numbers assigned by the translator to multi-line expressions, peephole-merged instructions.",
+        "assumptions": [],
+    },
+    "C36": {
+        "prefix": r"c36_", "jobs": 8, "quick_timeout": 900,
+        "thorough_only": r"c36_(vec_option_bool|tuple_int_string_bool|result_unit_int|option_tuple)",
+        "functions": ["host_bindings::VmType impls for AbraInt, f64, bool, String, (), Option<T>, Result<T,E>, Vec<T>, tuples", "the VM heap constructors they call"],
+        "bounds": "round trip v.to_vm(); T::from_vm() == v with the stack depth restored, values symbolic: int, float (bitwise), bool, String <= 2 "
+                  "bytes, (int,bool), (int,String,bool), Option<int>, Option<(int,bool)>, Result<int,String>, Result<(),int>, Vec<int> of length "
+                  "0 and 2, Vec<Option<bool>> of length 2; argument order for a 3-argument host function. Outside: generated code for user "
+                  "structs/enums (generate_host_function_enum needs the whole front end), the C ABI flavour.",
+        "assumptions": [],
+    },
+    "C30": {
+        "prefix": r"c30_scan", "jobs": 2,
+        "functions": ["parse::lexer::scan_for_unescaped_delim"],
+        "bounds": "string bodies of exactly 4 symbolic characters over {backslash, quote, a, newline}, with and without stop_at_newline: returns "
+                  "the first delimiter not escaped by a backslash. handle_num and process_escapes_into did not finish under CBMC (measured "
+                  "1500 s; String::push with symbolic chars) and are NOT claimed; str::parse is std.",
+        "assumptions": [],
     },
 }
+for _k in K.values():
+    _k.setdefault("rule", RULE)
 
 
 def run_k(prop, outcome, harness_map):
@@ -35,8 +176,8 @@ def run_k(prop, outcome, harness_map):
             if meta.get("quick_only_list"):
                 quick = name in meta["quick_only_list"]
             items.append({"module": module, "name": name, "quick": quick})
-    frag, _sess = k_check(prop, outcome, items, quick_timeout=meta.get("quick_timeout", 240),
-                          thorough_timeout=meta.get("thorough_timeout", 1200))
+    frag, _sess = k_check(prop, outcome, items, quick_timeout=meta.get("quick_timeout", 400),
+                          thorough_timeout=meta.get("thorough_timeout", 1200), jobs=meta.get("jobs"))
     cov = dict(frag)
     cov["rule"] = meta["rule"]
     cov["functions_encoded"] = meta["functions"]
